@@ -175,6 +175,11 @@ type Evaluator struct {
 	symbolicElems bool
 	litCache      map[*ssa.Global]Val
 	backing       map[*ssa.Global]*Obj
+	// faithful: floating-point + - * / are kept as the binary operations the program performs
+	// (no re-association, no distribution), so that two values are the same term only if they are
+	// computed by the same sequence of roundings. Only rewrites that are exact in IEEE-754 are
+	// applied: commutativity of + and *, x − y = x + (−y), −(−x) = x.
+	faithful      bool
 	unroll        bool   // execute counted loops with constant bounds iteration by iteration
 	ctx           string // calling context (chain of call sites)
 	siteObjs      map[string]*Obj
@@ -912,7 +917,11 @@ func (ev *Evaluator) instr(fr *frame, ins ssa.Instruction, st *State) {
 			fr.env[x] = ev.load(*st, v, x.Type())
 		case token.SUB:
 			if t, ok := v.(*Term); ok {
-				fr.env[x] = Neg(t)
+				if ev.faithful && isFloatType(x.Type()) {
+					fr.env[x] = fNeg(t)
+				} else {
+					fr.env[x] = Neg(t)
+				}
 			}
 		case token.NOT:
 			if t, ok := v.(*Term); ok {
@@ -961,6 +970,12 @@ func (ev *Evaluator) instr(fr *frame, ins ssa.Instruction, st *State) {
 				fr.env[x] = symVal("?binop", x.Type())
 			}
 			return
+		}
+		if ev.faithful && isFloatType(x.Type()) {
+			if ft, ok := faithfulOp(x.Op, a, b); ok {
+				fr.env[x] = ft
+				return
+			}
 		}
 		switch x.Op {
 		case token.ADD:
@@ -1113,6 +1128,11 @@ func elemTypeIfPtr(t types.Type) types.Type {
 		return p.Elem()
 	}
 	return t
+}
+
+func isFloatType(t types.Type) bool {
+	b, ok := t.Underlying().(*types.Basic)
+	return ok && b.Info()&types.IsFloat != 0
 }
 
 func isIntType(t types.Type) bool {
